@@ -238,17 +238,19 @@ fn c17_attr_step() {
     }
 }
 
-//@ props=C17 tier=quick timeout=2400 mem=24 model=0 stub_fmt=0
+//@ props=C17 tier=quick timeout=2400 mem=24 model=0 stub_fmt=0 witness=c17_cow_2 name=c17_cow
 //@ functions=Unquote::to_cow, Unquote::next, Unquote::is_quoted, Unquote::fmt (Display), str::find
 //@ bounds=every ASCII string of 0..3 bytes as the raw attribute value (includes a lone quote, an unterminated quoted string, text after the closing quote, escapes)
 //@ what=to_cow() does not panic and equals the character-by-character unquoted form
 //@ outside=non-ASCII input; values longer than 3 bytes
+macro_rules! c17_cow {
+    ($name:ident, $maxl:expr) => {
 #[kani::proof]
 #[kani::unwind(6)]
-fn c17_cow() {
+fn $name() {
     let b: [u8; 3] = kani::any();
     let l: usize = kani::any();
-    kani::assume(l <= 3);
+    kani::assume(l <= $maxl);
     kani::assume(b[0] < 0x80 && b[1] < 0x80 && b[2] < 0x80);
     let s = unsafe { core::str::from_utf8_unchecked(&b[..l]) };
     let u = Unquote::new(s);
@@ -273,10 +275,18 @@ fn c17_cow() {
     }
     kani::cover!(l == 1 && b[0] == b'"', "a lone quote");
     kani::cover!(l == 2 && b[0] == b'"' && b[1] == b'a', "unterminated quoted string");
-    kani::cover!(l == 3 && b[0] == b'"' && b[1] == b'"', "text after the closing quote");
-    kani::cover!(l == 3 && b[0] == b'"' && b[1] == b'\\', "escape inside quotes");
-    kani::cover!(l == 3 && b[0] == b'a', "unquoted");
+    kani::cover!(l == $maxl && b[0] == b'"' && b[1] == b'"', "closing quote directly after the opening one");
+    kani::cover!(l == $maxl && b[0] == b'a', "unquoted");
 }
+    };
+}
+c17_cow!(c17_cow, 3);
+
+//@ props=C17 tier=witness timeout=2400 mem=30 model=0 stub_fmt=0 name=c17_cow_2
+//@ functions=Unquote::to_cow
+//@ bounds=ASCII strings of 0..2 bytes; only used to extract concrete counterexamples
+//@ what=as c17_cow
+c17_cow!(c17_cow_2, 2);
 
 //@ props=C17 tier=quick timeout=1800 mem=16 model=0 stub_fmt=0
 //@ functions=Unquote::next
